@@ -30,6 +30,7 @@ Definition cell_match (e o : cell) : bool :=
   | CInts a, CInts b => zlist_eqb a b
   | CRats a, CRats b => list_eqb (fun p q => rat_close (fst p) (snd p) (fst q) (snd q)) a b
   | CBool a, CBool b => Bool.eqb a b
+  | CTexts a, CTexts b => zll_eqb a b
   | _, _ => false
   end.
 Definition col_match (e o : colres) : bool :=
